@@ -285,8 +285,12 @@ def generate(files=None):
             except SyntaxError:
                 continue
             out.append(m)
+    import hashlib
+
+    out = [m for m in out if not any(x in m["func"] for x in ("__repr__", "__str__", "_instance_id"))]
     for i, m in enumerate(out):
-        m["id"] = f"{m['file'][:-3]}:{m['line']}:{m['op']}:{i}"
+        h = hashlib.blake2b(repr((m["orig"], m["text"], m["func"], m["a"] - m["b"])).encode(), digest_size=3).hexdigest()
+        m["id"] = f"{m['file'][:-3]}:{m['line']}:{m['op']}:{h}"
     return out
 
 
